@@ -82,7 +82,26 @@ def shrink(c):
 MULTI_CMDS = [['mask', '-s', '1', '-l', '2'], ['mask', '-s', '0', '-l', '3', '--replace', 'MAJ'], ['mask', '--unique'], ['mask', '--ref-seq', 'ref', '-s', '0', '-l', '2'], ['mask', '--unique', '--ref-seq', 'ref', '--replace', 'MAJ']]
 
 
+def _gen_large(rng, tier):
+    # (the list-based model recomputes column tables per cell: the wide cases stay small in number and use the cheap
+    # replacement characters; MAJ and the occurrence masks are exercised on the tall ones)
+    for _ in range(2 if tier == "quick" else 10):
+        n, L = rng.choice([101, 131]), rng.randint(2, 6)
+        rows = [("s%d" % i, "".join(rng.choice("ACGT-N") for _ in range(L))) for i in range(n)]
+        rs = rows_str(rows)
+        st = rng.randint(0, L - 1)
+        yield Case("mask", [1, rs, rng.choice(["_", "s0"]), st, rng.choice([1, L - st, L]), rng.choice(["AMBIG", "MAJ", "GAP"]), rng.randint(0, 1), rng.randint(0, 1)], True, "mask-tall")
+        yield Case("maskocc", [1, rs, rng.choice(["_", "s0"]), rng.choice([1, 2, n // 2]), rng.choice(["AMBIG", "MAJ"])], True, "maskocc-tall")
+    for _ in range(1 if tier == "quick" else 4):
+        L = rng.choice([4097, 4200])
+        rows = [("s%d" % i, "".join(rng.choice("ACGT-N") for _ in range(L))) for i in range(2)]
+        st = rng.choice([0, 4090, L - 3])
+        yield Case("mask", [1, rows_str(rows), "_", st, rng.choice([2, 7, L]), rng.choice(["AMBIG", "GAP"]), rng.randint(0, 1), 0], True, "mask-wide")
+
+
 def gen(rng, tier):
+    for c in _gen_large(rng, tier):
+        yield c
     from driver import multigen
     for c in _gen_core(rng, tier):
         yield c
